@@ -13,6 +13,7 @@ language and satisfy the side conditions under which `evalBody` is the Go semant
 -/
 import VaxisModel.Lemmas.EmuBody
 import VaxisModel.Lemmas.EmuBodyRow
+import VaxisModel.Lemmas.EmuBodyPrint
 
 namespace VaxisModel.Props.C05Bodies
 open VaxisModel.Model.Emu VaxisModel.Model.EmuBody VaxisModel.Lemmas.Emu VaxisModel.Lemmas.EmuBody VaxisModel.Gen
@@ -132,6 +133,12 @@ theorem body_ich (e : Emu) (n : Int) : evalBody TermBodies.body_ich [] [n] e = i
   split
   · exact ich_core e 1 _
   · exact ich_core e n _
+
+/-- print(seq): charset translation, autowrap (wrapped flag + NEL), insert-mode shift, clamped write,
+    trailing cells of a wide glyph, cursor advance and pending wrap — for every grapheme, every width,
+    every state. -/
+theorem body_print (e : Emu) (g : G) (w : Nat) :
+    evalPrint TermBodies.body_print g (w : Int) e = print Fixes.current e g w := print_body_eq e g w
 
 /-! ### coverage -/
 
